@@ -34,24 +34,24 @@ Variables z1 z2 : ztable.
 Hypothesis Hz1 : zt_ok z1.
 Hypothesis Hz2 : zt_ok z2.
 
-Theorem new_board_zrel pos turn np fm : wf_b pos turn = true -> (turn = 0 \/ turn = 1) ->
+Theorem new_board_zrel pos turn np fm : wf_b pos turn = true -> (turn = 0 \/ turn = 1) -> np <= max_int ->
   zrel z1 z2 (new_board z1 [] pos turn np fm) (new_board z2 [] pos turn np fm).
 Proof.
-  intros Hwf Ht.
+  intros Hwf Ht Hnp.
   destruct (new_board z1 [] pos turn np fm) as [h1 b1] eqn:E1.
   destruct (new_board z2 [] pos turn np fm) as [h2 b2] eqn:E2.
-  split; [exact (Game_ZOK _ _ _ _ (proj1 (Game_new z1 pos turn np fm h1 b1 Hwf Ht E1)))|].
-  split; [exact (Game_ZOK _ _ _ _ (proj1 (Game_new z2 pos turn np fm h2 b2 Hwf Ht E2)))|].
+  split; [exact (Game_ZOK _ _ _ _ (proj1 (Game_new z1 pos turn np fm h1 b1 Hwf Ht Hnp E1)))|].
+  split; [exact (Game_ZOK _ _ _ _ (proj1 (Game_new z2 pos turn np fm h2 b2 Hwf Ht Hnp E2)))|].
   rewrite <- E1, <- E2, !new_board_abs by exact Ht. reflexivity.
 Qed.
 
 (** the same moves played from the same start on two boards hashed with different tables *)
-Theorem played_zrel pos turn np fm : wf_b pos turn = true -> (turn = 0 \/ turn = 1) ->
+Theorem played_zrel pos turn np fm : wf_b pos turn = true -> (turn = 0 \/ turn = 1) -> np <= max_int ->
   forall ms h1 b1 h2 b2,
   played_board z1 pos turn np fm ms h1 b1 -> played_board z2 pos turn np fm ms h2 b2 ->
   zrel z1 z2 (h1, b1) (h2, b2).
 Proof.
-  intros Hwf Ht ms h1 b1 h2 b2 H1. revert h2 b2.
+  intros Hwf Ht Hnp ms h1 b1 h2 b2 H1. revert h2 b2.
   induction H1 as [h1 b1 Hnew | ms h1 b1 m h1' b1' Hpl IH Hin Hpush]; intros h2 b2 H2.
   - inversion H2 as [h b Hnew2 | ms' h b m' h' b' _ _ _ Ems]; subst.
     + rewrite <- Hnew, <- Hnew2. apply new_board_zrel; assumption.
@@ -253,7 +253,7 @@ Proof.
   destruct (search_independent_of_zobrist zt_a zt_b zt_a_ok zt_b_ok full_exploration captures_only material never true 4%nat
               (full_exploration_blind _ _) (captures_only_blind _ _) (material_blind _ _) kr_a kr_b [] 3%nat neginf_score inf_score)
     as (s1 & s2 & n & sc & pv & hl & F1 & F2 & _).
-  - apply new_board_zrel; [exact kr_pos_wf|left; reflexivity].
+  - apply new_board_zrel; [exact kr_pos_wf|left; reflexivity|vm_compute; discriminate].
   - exists s1, s2, n, sc, pv, hl. auto.
 Qed.
 
